@@ -757,6 +757,10 @@ impl Datamodel for ECMAScriptDatamodel {
                                     idx += 1;
                                 }
                             }
+                        } else {
+                            // W3C: an illegal 'item' or 'index' terminates the <foreach> and the
+                            // block that contains it ('error.execution' was raised by assign_internal).
+                            return false;
                         }
                     }
                     _ => {
